@@ -20,8 +20,12 @@ CONSTANTS SLOTS,      \* sequence of root slot names
           KEYS,       \* table key spellings; CanonK gives the canonical-equivalence class; "bad" is invalid
           PNAMES,     \* packet item name spellings; FoldN gives the case-folded class; "bad" is invalid
           KINDS,      \* kinds for create / init
+          QUOTES,     \* quoting arguments / try flags explored: {} switches the scalar coercions off, {0, 1} on
+          GETNUM,     \* which of "get_number", "get_su" are explored
           MaxList, MaxEntries, MaxDepth, MaxHist
-CONSTANTS CanonK(_), FoldN(_)
+CONSTANTS CanonK(_), FoldN(_),
+          Class(_)    \* what a char text is for quoting / coercion: "plain", "number", "unk" (?), "na" (.), "reserved",
+                      \* "empty", "space" (contains whitespace), "bracket" (contains [ ] { } but no whitespace)
 
 VARIABLES roots,   \* [slot -> value | None]
           refs,    \* [ref -> [root, path] | None]
@@ -29,7 +33,7 @@ VARIABLES roots,   \* [slot -> value | None]
           hist
 vars == <<roots, refs, pk, hist>>
 
-OK == 0  ARGUMENT_ERROR == 6  INVALID_ITEMNAME == 42  NOSUCH_ITEM == 43  INVALID_INDEX == 73
+OK == 0  ARGUMENT_ERROR == 6  INVALID_ITEMNAME == 42  NOSUCH_ITEM == 43  INVALID_NUMBER == 72  INVALID_INDEX == 73
 None == [k |-> "none"]
 NoPk == [on |-> FALSE, e |-> <<>>]
 U == [k |-> "unk"]
@@ -103,6 +107,39 @@ ParseNumbR(d, t) == IF ~Live(d) THEN Off ELSE
     LET dead == Below(RootOf(d), PathOf(d))
     IN On([op |-> "value_op", f |-> "parse_numb", v |-> d, text |-> t, rc |-> OK, drop |-> dead],
           [Cur EXCEPT !.roots = SetVal(d, [k |-> "numb", t |-> t, q |-> 0]), !.refs = DropRefs(dead)])
+\* ---- scalar coercions: cif_value_set_quoted / cif_value_try_quoted / cif_value_get_number / cif_value_get_su / cif_value_get_text
+\* Presenting a placeholder quoted turns it into the one-character string; presenting "?" or "." unquoted turns it into the
+\* placeholder; strings that CIF 2.0 cannot present whitespace-delimited are refused (try_quoted: silently kept quoted
+\* when only brackets or braces stand in the way); aggregates cannot be quoted.
+Quotable(v, q, try) ==
+    CASE v.k = "unk" -> [rc |-> OK, v |-> IF q = 1 THEN [k |-> "char", t |-> "?", q |-> 1] ELSE v]
+      [] v.k = "na" -> [rc |-> OK, v |-> IF q = 1 THEN [k |-> "char", t |-> ".", q |-> 1] ELSE v]
+      [] v.k \in {"list", "table"} -> [rc |-> IF q = 1 THEN ARGUMENT_ERROR ELSE OK, v |-> v]
+      [] v.k = "numb" -> [rc |-> OK, v |-> [v EXCEPT !.q = q]]
+      [] OTHER -> IF q = 1 \/ v.q = 0 THEN [rc |-> OK, v |-> [v EXCEPT !.q = q]]
+                  ELSE LET c == Class(v.t)
+                       IN CASE c \in {"empty", "reserved", "space"} -> [rc |-> ARGUMENT_ERROR, v |-> v]
+                            [] c = "unk" -> [rc |-> OK, v |-> U]
+                            [] c = "na" -> [rc |-> OK, v |-> [k |-> "na"]]
+                            [] c = "bracket" -> [rc |-> IF try = 1 THEN OK ELSE ARGUMENT_ERROR, v |-> v]
+                            [] OTHER -> [rc |-> OK, v |-> [v EXCEPT !.q = 0]]
+SetQuotedR(d, q, try) == IF ~Live(d) THEN Off ELSE
+    LET r == Quotable(Val(d), q, try)
+    IN On([op |-> "value_op", f |-> IF try = 1 THEN "try_quoted" ELSE "set_quoted", v |-> d, q |-> q, rc |-> r.rc],
+          [Cur EXCEPT !.roots = SetVal(d, r.v)])
+\* get_number / get_su: a number answers; a character value whose text is a number BECOMES that number (keeping its
+\* quoting) and answers; other character values are refused unchanged; other kinds are an argument error
+AsNumber(v) ==
+    CASE v.k = "numb" -> [rc |-> OK, v |-> v]
+      [] v.k = "char" -> IF Class(v.t) = "number" THEN [rc |-> OK, v |-> [k |-> "numb", t |-> v.t, q |-> v.q]] ELSE [rc |-> INVALID_NUMBER, v |-> v]
+      [] OTHER -> [rc |-> ARGUMENT_ERROR, v |-> v]
+GetNumberR(d, which) == IF ~Live(d) THEN Off ELSE
+    LET r == AsNumber(Val(d))
+    IN On([op |-> "value_op", f |-> which, v |-> d, rc |-> r.rc], [Cur EXCEPT !.roots = SetVal(d, r.v)])
+GetTextR(d) == IF ~Live(d) THEN Off ELSE
+    LET v == Val(d)
+    IN On([op |-> "value_op", f |-> "get_text", v |-> d, rc |-> OK, has |-> IF v.k \in {"char", "numb"} THEN 1 ELSE 0,
+           text |-> IF v.k \in {"char", "numb"} THEN v.t ELSE ""], Cur)
 CloneR(d) == IF ~Live(d) \/ FreeSlot = "" THEN Off ELSE
     On([op |-> "value_op", f |-> "clone", v |-> d, out |-> FreeSlot, rc |-> OK], [Cur EXCEPT !.roots[FreeSlot] = Val(d)])
 \* clone onto an existing root that does not overlap the source
@@ -244,6 +281,8 @@ Results ==
     {CreateR(k) : k \in KINDS} \cup {FreeR(s) : s \in SeqToSet(SLOTS)} \cup {DumpR(d) : d \in Desigs}
     \cup {InitR(d, k) : d \in Desigs, k \in KINDS} \cup {CopyCharR(d, t) : d \in Desigs, t \in TEXTS}
     \cup {ParseNumbR(d, t) : d \in Desigs, t \in NUMTEXTS}
+    \cup {SetQuotedR(d, q, t) : d \in Desigs, q \in QUOTES, t \in QUOTES} \cup {GetNumberR(d, w) : d \in Desigs, w \in GETNUM}
+    \cup {GetTextR(d) : d \in Desigs}
     \cup {CloneR(d) : d \in Desigs} \cup {CloneIntoR(d, s) : d \in Desigs, s \in SeqToSet(SLOTS)} \cup {CountR(d) : d \in Desigs}
     \cup {GetAtR(d, i) : d \in Desigs, i \in Idx} \cup {SetAtR(d, i, a) : d \in Desigs, i \in Idx, a \in Args}
     \cup {InsertAtR(d, i, a) : d \in Desigs, i \in Idx, a \in Args} \cup {RemoveAtR(d, i, c) : d \in Desigs, i \in Idx, c \in {0, 1}}
